@@ -67,6 +67,7 @@ fn do_case(kvs: &[Kv], fr: Front, geom: Geom, ty: u64, st: &mut Stats, rep: &Rep
     let r = build_ty(fr, geom, ty, kvs).and_then(|b| conforms(&b, ty, kvs));
     match r {
         Ok(f) => {
+            crate::ev::obs(crate::ev::hash_kvs(kvs) ^ f.nodes);
             st.count("nodes_decoded", f.nodes);
             st.count("nodes_one_trans_next", f.otn);
             st.count("nodes_one_trans", f.ot);
@@ -148,6 +149,32 @@ pub fn plan(tier: Tier) -> Plan {
                 }
             }
         }));
+    }
+    // every assignment from {0,1,2} to every subset of U_abc2 with <= 5 keys
+    // (thorough: <= 6) under an evict-always cache
+    {
+        let u = u_abc2();
+        let maxk = if thorough { 6 } else { 5 };
+        let mut masks = vec![];
+        for_each_mask_upto(u.keys.len(), maxk, &mut |m| masks.push(m));
+        let chunk = (masks.len() + 127) / 128;
+        for part in masks.chunks(chunk.max(1)) {
+            let part = part.to_vec();
+            let u = u.clone();
+            p.units.push(unit("U_abc2-all-value-assignments-{0,1,2}-cache-1x1", format!("abc2 assignments {} masks from {}", part.len(), part[0]), move |st, rep| {
+                for &mask in &part {
+                    if rep.stopped() { return; }
+                    let keys = select(&u.keys, mask);
+                    let n = keys.len();
+                    for code in 0..3usize.pow(n as u32) {
+                        let mut c = code;
+                        let kvs: Vec<Kv> = keys.iter().map(|k| { let v = (c % 3) as u64; c /= 3; (k.clone(), v) }).collect();
+                        st.nontrivial += (n >= 2) as u64;
+                        do_case(&kvs, Front::RawInsert, (1, 1), 0, st, rep);
+                    }
+                }
+            }));
+        }
     }
     for part in 0..8usize {
         p.units.push(unit("label-family-all-256-bytes", format!("labels part {}", part), move |st, rep| {
